@@ -158,31 +158,31 @@ Theorem C01_template_placeholder_whitespace : forall w1 n w2 rest,
 Proof. exact R_placeholder. Qed.
 Print Assumptions C01_template_placeholder_whitespace.
 
-(* parse_string_literal of the CURRENT source (GenTemplate.variant_of_source) reads every
-   literal as documented, except inside the class its two switches carve out *)
+(* The reading of a whole literal: a literal is a template only when it contains `{`
+   (Template.literal_reading; `{{`/`}}` are documented nowhere, so `}}` in a literal without `{`
+   stays `}}` — as coded, not counted as a defect).  parse_string_literal of the CURRENT source
+   (GenTemplate.variant_of_source, regenerated on every run) reads every literal that way,
+   including literals with escape sequences (repaired by 67a56e3: the statement stops
+   type-checking if that repair is lost). *)
 Theorem C01_literal_spec_source : forall s owned,
-  ~ known_class_v variant_of_source s owned ->
-  parts_items (parse_string_literal variant_of_source s owned) = template_reading s.
-Proof. intros s owned. apply literal_spec_any. Qed.
+  parts_items (parse_string_literal variant_of_source s owned) = literal_reading s.
+Proof. exact literal_spec_current. Qed.
 Print Assumptions C01_literal_spec_source.
 
-(* with both repairs (fixes/C01-*.patch) the class is empty: every literal reads as documented *)
-Theorem C01_literal_spec_repaired : forall s owned,
-  parts_items (parse_string_literal repaired s owned) = template_reading s.
-Proof. exact literal_spec_repaired. Qed.
-Print Assumptions C01_literal_spec_repaired.
+(* for any state of the two switches with the `{` gate: the only deviating class *)
+Theorem C01_literal_spec_gate : forall v s owned,
+  v_open_brace_gate v = true ->
+  ~ (v_owned_static v = true /\ owned = true /\ has_byte LB s = true) ->
+  parts_items (parse_string_literal v s owned) = literal_reading s.
+Proof. exact literal_spec_gate. Qed.
+Print Assumptions C01_literal_spec_gate.
 
-(* the shipped parser: witnesses inside the class ("a\t{x}" with an escape; "}}") *)
+(* the shipped parser (before 67a56e3): "a\t{x}" was not interpolated *)
 Theorem C01_refuted_escaped_string_not_interpolated :
   parts_items (parse_string_literal shipped [97; 9; 123; 120; 125] true)
-  <> template_reading [97; 9; 123; 120; 125].
-Proof. exact shipped_escape_not_interpolated. Qed.
+  <> literal_reading [97; 9; 123; 120; 125].
+Proof. vm_compute. discriminate. Qed.
 Print Assumptions C01_refuted_escaped_string_not_interpolated.
-
-Theorem C01_refuted_close_brace_escape_needs_open_brace :
-  parts_items (parse_string_literal shipped [125; 125] false) <> template_reading [125; 125].
-Proof. exact shipped_close_brace_not_unescaped. Qed.
-Print Assumptions C01_refuted_close_brace_escape_needs_open_brace.
 
 (* ================================================================ float operations *)
 
@@ -274,3 +274,65 @@ Example C01_simply_typed_example :
   simply_typed [SMake None [102] None ENull;
                 SExpr None (ECall (EVar n_shout None) [EBin OEq (EVar [102] None) (ENum (of_Z 0))] None)] = true.
 Proof. vm_compute. reflexivity. Qed.
+
+(* ================================================================ the full parser model *)
+(* theories/Parser.v transcribes the whole of src/syntax/parser.rs (spans, diagnostics, recovery)
+   and reuses Pratt.v / Template.v; proofs/ParserPratt.v shows that its parse_expression coincides
+   with Pratt.parse_expr wherever the latter succeeds.  Statements as in Properties/PARSER.v. *)
+Require NS.Properties.PARSER.
+
+Theorem C01_parser_expression_agrees_with_pratt :
+  ltac:(let t := type of NS.Properties.PARSER.PARSER_expression_agrees_with_pratt in exact t).
+Proof. exact NS.Properties.PARSER.PARSER_expression_agrees_with_pratt. Qed.
+Print Assumptions C01_parser_expression_agrees_with_pratt.
+
+Theorem C01_parser_pratt_roundtrip :
+  ltac:(let t := type of NS.Properties.PARSER.PARSER_pratt_roundtrip in exact t).
+Proof. exact NS.Properties.PARSER.PARSER_pratt_roundtrip. Qed.
+Print Assumptions C01_parser_pratt_roundtrip.
+
+Theorem C01_parser_make_statement_roundtrip :
+  ltac:(let t := type of NS.Properties.PARSER.PARSER_make_statement_roundtrip in exact t).
+Proof. exact NS.Properties.PARSER.PARSER_make_statement_roundtrip. Qed.
+Print Assumptions C01_parser_make_statement_roundtrip.
+
+Theorem C01_parser_parens_redundant :
+  ltac:(let t := type of NS.Properties.PARSER.PARSER_parens_redundant in exact t).
+Proof. exact NS.Properties.PARSER.PARSER_parens_redundant. Qed.
+Print Assumptions C01_parser_parens_redundant.
+
+Theorem C01_parser_precedence_looser_operator_first :
+  ltac:(let t := type of NS.Properties.PARSER.PARSER_precedence_looser_operator_first in exact t).
+Proof. exact NS.Properties.PARSER.PARSER_precedence_looser_operator_first. Qed.
+Print Assumptions C01_parser_precedence_looser_operator_first.
+
+Theorem C01_parser_left_associative :
+  ltac:(let t := type of NS.Properties.PARSER.PARSER_left_associative in exact t).
+Proof. exact NS.Properties.PARSER.PARSER_left_associative. Qed.
+Print Assumptions C01_parser_left_associative.
+
+(* ================================================================ the umbrella statement *)
+(* eval_refines_spec, as far as the neighbouring properties prove it: for a program whose ids
+   are the lexical ones (C04: LexResolve.lexical, what the resolver is shown to produce by the
+   C04 correspondence), a plan the C03 checker accepts in its four proved classes with nothing
+   left over, and a reference run that finishes or raises a runtime error (comparable: not
+   stuck, not out of fuel, not unsupported), the implementation model WITH the plan prints the
+   same values and ends the same way, with the same fuel.
+   Exclusions carried over: programs outside `lexical` (the refuted early-capture class of
+   C04), plans with a non-empty residual (C03's unproved remainder), reference runs that are
+   stuck / out of fuel / unsupported, and everything F64.v, the operator tables and the
+   built-ins share between the two sides (validated by the f64 and programs streams). *)
+Require NS.proofs.C01Compose.
+Theorem C01_eval_refines_spec :
+  ltac:(let t := type of NS.proofs.C01Compose.eval_refines_spec in exact t).
+Proof. exact NS.proofs.C01Compose.eval_refines_spec. Qed.
+Print Assumptions C01_eval_refines_spec.
+Check (C01_eval_refines_spec :
+  forall eps fuel p ss fs o e,
+    NS.theories.LexResolve.lexical p = true ->
+    NS.theories.Spec.run_spec eps fuel p = (o, e) ->
+    NS.proofs.ScopeProofs.comparable e = true ->
+    NS.theories.PlanCheck.v_checked (NS.theories.LiveCheck.x_main (NS.theories.LiveCheck.plan_ok3 p ss fs)) = true ->
+    NS.theories.LiveCheck.x_checked (NS.theories.LiveCheck.plan_ok3 p ss fs) = true ->
+    NS.theories.LiveCheck.x_residual (NS.theories.LiveCheck.plan_ok3 p ss fs) = ([], []) ->
+    run_impl (Some (ss, fs)) eps fuel p = (o, NS.proofs.ScopeProofs.ending_of e)).
